@@ -53,7 +53,7 @@ REGISTRY = {
                          'a grounded pulse lies on the plane (z = 0 exactly; the code accepts |z| < 1e-3 of the shortest segment)']),
     'C11': dict(module='contracts.C11', level='proof',
                 native=native_sweep('c11_ground.py', 'currents over real ground == ideal ground; medium split; far medium beyond every reflection point; sigma = 1e12 vs ideal ground (1..2 media, linear/circular boundary, radials)', 40, 1500),
-                undecided=['pattern converges to ideal ground as conductivity grows: only the limit point is decided (Z = 0 gives the ideal-ground coefficients v = 1, h = 0); the rate and the rest of the real-ground sum: native sweep only',
+                undecided=['pattern converges to ideal ground as conductivity grows: the limit point is decided (the whole real-ground computation of E(theta), E(phi) with surface impedance 0, one medium at height 0 without radials, equals the ideal-ground computation on 1x1x2 arrays; and Z = 0 gives v = 1, h = 0); continuity in Z and the rate of convergence: native sweep only',
                            'splitting a medium / adding a far medium: decided for the medium lookup (1..3 media, one direction, one pulse: shape-bounded) and as lemmas over its contract; the remaining statements of the real-ground branch (phase, height of the selected medium, summation) -- native sweep only'],
                 trusted=['call graph over-approximated by method name and arity',
                          'np.argmin(bool array, axis=0) = first False; principal complex square root as an uninterpreted function with w*w = z, Re w >= 0; np.log uninterpreted',
